@@ -315,7 +315,7 @@ example :
     (stepG true w (.run 0 (.declare ⟨L, p, [49], some d2, none, false, none, false, false⟩) none)).out = .refused ∧
     w.db.findDecl 0 p [49] L = some ⟨0, p, [49], L, d1, .default⟩ ∧
     (stepG true w (.run 0 (.declare ⟨L, p, [50], some d2, none, false, some beta, false, false⟩) none)).out = .ok ∧
-    (stepG true w (.run 0 (.undeclare ⟨L, p, some [49], none, none, false, false⟩) none)).out = .ok := by decide
+    (stepG true w (.run 0 (.undeclare ⟨L, p, some [49], none, none, false, false, false, none⟩) none)).out = .ok := by decide
 
 /-- two flavors share one version file and one chain file; undeclaring one flavor leaves the other's blocks -/
 example :
@@ -325,7 +325,7 @@ example :
       [.run 0 (.declare ⟨L, p, [49], some ⟨0, relDir L p [49]⟩, none, false, none, false, false⟩) none,
        .run 0 (.declare ⟨generic, p, [49], some ⟨0, relDir generic p [49]⟩, none, false, none, false, false⟩) none]
     let F := (runHistoryF 1 dirs h).1
-    let F' := (runHistoryF 1 dirs (h ++ [.run 0 (.undeclare ⟨L, p, some [49], none, none, false, false⟩) none])).1
+    let F' := (runHistoryF 1 dirs (h ++ [.run 0 (.undeclare ⟨L, p, some [49], none, none, false, false, false, none⟩) none])).1
     (F.vfiles.map (fun x => x.recs.map (·.flav)), F.cfiles.map (fun x => x.recs.map (·.flav)),
      F'.vfiles.map (fun x => x.recs.map (·.flav)), F'.cfiles.map (fun x => x.recs.map (·.flav)))
       = ([[L, generic]], [[L, generic]], [[generic]], [[generic]]) := by decide
